@@ -193,10 +193,11 @@ modelled! {
             i += 1;
         }
         let r = ctx.check_recursion_depth_limit(&mut report, sp());
-        assert!(r.is_err() == (k >= 25), "evaluation depth limit is not 25");
+        assert!(r.is_err() == (k >= expr::EVAL_RECURSION_DEPTH_MAX), "nesting beyond the documented evaluation depth accepted, or nesting below it rejected");
+        assert!(expr::EVAL_RECURSION_DEPTH_MAX <= 25, "evaluation depth limit raised beyond what the harness explores");
         assert!(r.is_err() == (errs(&report) > 0), "limit reached without a diagnostic");
-        kani::cover!(k == 24 && r.is_ok(), "deepest allowed nesting");
-        kani::cover!(k == 25 && r.is_err(), "first rejected nesting");
+        kani::cover!(k + 1 == expr::EVAL_RECURSION_DEPTH_MAX && r.is_ok(), "deepest allowed nesting");
+        kani::cover!(k == expr::EVAL_RECURSION_DEPTH_MAX && r.is_err(), "first rejected nesting");
         std::mem::forget(ctx); std::mem::forget(report);
     }
 }
